@@ -95,6 +95,7 @@ Judge(i) ==
   \cup One("SafeWithoutConflict", i, Tr[i].act.a = "init" \/ SafeWithoutConflictP(i))
   \cup One("UnverifiedIgnored", i, Tr[i].act.a = "init" \/ UnverifiedIgnoredP(i))
   \cup One("CancelWarranted", i, Tr[i].act.a = "init" \/ CancelWarrantedP(i))
+  \cup One("TrustSticky", i, Tr[i].act.a = "init" \/ TrustStickyP([t \in Tx |-> Tr[i-1].st.mp[t]], [t \in Tx |-> Tr[i].st.mp[t]], Tr[i].act.a))
 
 PInit == Init /\ l = 0 /\ bad = {}
 PNext == /\ l < Len(Tr) /\ l' = l + 1 /\ Load(l + 1)
